@@ -86,11 +86,27 @@ def pre_a(Y, fs):
         _, Sm = SD_est(allc, Y[i]["mov"], 1 / fs)
         G.append(np.hstack((Sr, Sm)))
     n = Y[0]["ref"].shape[0]
-    mean = sum([G[i][:n, :n] for i in range(len(Y))]) / len(Y)
+    Gf = [np.moveaxis(g, 2, 0) for g in G]
+    mean = sum([Gf[i][:, :n, :n] for i in range(len(Y))]) / len(Y)
     rows = [mean]
-    for g in G:
-        rows.append(g[n:, :n] @ np.linalg.inv(g[:n, :n]) @ mean)
-    return f, np.vstack(rows)
+    for g in Gf:
+        rows.append(g[:, n:, :n] @ np.linalg.inv(g[:, :n, :n]) @ mean)
+    return f, np.moveaxis(np.concatenate(rows, axis=1), 0, 2)
+
+def pre_bad_axes(Y, fs):
+    G = []
+    for i in range(len(Y)):
+        allc = np.vstack((Y[i]["ref"], Y[i]["mov"]))
+        f, Sr = SD_est(allc, Y[i]["ref"], 1 / fs)
+        _, Sm = SD_est(allc, Y[i]["mov"], 1 / fs)
+        G.append(np.hstack((Sr, Sm)))
+    n = Y[0]["ref"].shape[0]
+    Gf = [np.moveaxis(g, 2, 0) for g in G]
+    mean = sum([Gf[i][:, :n, :n] for i in range(len(Y))]) / len(Y)
+    rows = [mean]
+    for g in Gf:
+        rows.append(g[:, n:, :n] @ np.linalg.inv(g[:, :n, :n]) @ mean)
+    return f, np.concatenate(rows, axis=1)
 
 def pre_bad_corner(Y, fs):
     G = []
@@ -100,11 +116,12 @@ def pre_bad_corner(Y, fs):
         _, Sm = SD_est(allc, Y[i]["mov"], 1 / fs)
         G.append(np.hstack((Sr, Sm)))
     n = Y[0]["ref"].shape[0]
-    mean = sum([G[i][:n, :n] for i in range(len(Y))]) / len(Y)
+    Gf = [np.moveaxis(g, 2, 0) for g in G]
+    mean = sum([Gf[i][:, :n, :n] for i in range(len(Y))]) / len(Y)
     rows = [mean]
-    for g in G:
-        rows.append(g[:n, n:] @ np.linalg.inv(g[:n, :n]) @ mean)
-    return f, np.vstack(rows)
+    for g in Gf:
+        rows.append(g[:, :n, n:] @ np.linalg.inv(g[:, :n, :n]) @ mean)
+    return f, np.moveaxis(np.concatenate(rows, axis=1), 0, 2)
 
 def hank_a(Y, Yref, br):
     p = br
@@ -178,7 +195,7 @@ def run(root):
             if seqdom.canon(t) == want or seqdom.opaque(seqdom.normalise(t)):
                 fails.append(f"seqdom: broken variant {name} not recognised as different: {seqdom.canon(t)}")
         # block typing
-        for name, bad in (("pre_a", False), ("pre_bad_corner", True)):
+        for name, bad in (("pre_a", False), ("pre_bad_corner", True), ("pre_bad_axes", True)):
             n += 1
             fi = prog.func("functions.gen." + name)
             it = blockdom.Interp(prog, roles={"Y": ("setups",)})
@@ -189,7 +206,7 @@ def run(root):
                 fails.append(f"blockdom: {name} did not produce a typed matrix ({v!r})"[:200])
                 continue
             rows, cols, form = blockdom.gcanon(sy.rows), blockdom.gcanon(sy.cols), blockdom.fshow(sy.form)
-            good = rows == "(ref ; for k0 in 0..N: (mov[k0]))" and cols == "(ref)" and not it.type_errors and \
+            good = rows == "(ref ; for k0 in 0..N: (mov[k0]))" and cols == "(ref)" and not it.type_errors and sy.lay == blockdom.STD_LAY and \
                 form == "[mean_k0(S[k0]<ref|ref>) ; for k0 in 0..N: S[k0]<mov|ref> . S[k0]<ref|ref>^-1 . mean_k1(S[k1]<ref|ref>)]"
             if good == bad:
                 fails.append(f"blockdom: {name}: rows {rows} cols {cols} form {form} type errors {len(it.type_errors)}")
